@@ -19,7 +19,7 @@ RULE = ("(read-only) for families x configuration classes (tags x rated power x 
         "(setter, argument) tuples")
 ASSUMPTIONS = ["frames are classified by an independent decoder inside the simulated inverter",
                "'modbus-N' ids are documented raw-register access and are not 'unknown' ids"]
-MUST = ["valid_setter_with_concurrent_invalid_calls", "invalid_after_same_mode", "concurrent_writer_reader", "readonly_calls", "readonly_frames_seen", "after_valid_setters", "invalid_export_limit", "invalid_dod", "invalid_eco_power",
+MUST = ["invalid_after_state_changing_calls", "valid_setter_with_concurrent_invalid_calls", "invalid_after_same_mode", "concurrent_writer_reader", "readonly_calls", "readonly_frames_seen", "after_valid_setters", "invalid_export_limit", "invalid_dod", "invalid_eco_power",
         "invalid_eco_soc", "setting_refused_on_read_then_written", "raw_ids_beyond_16_bits", "unknown_setting_ids", "sensor_id_as_setting_id", "monitoring_over_refused_connections", "discover_readonly", "valueerror_seen"]
 EXHAUSTIVE = {"quick": False, "thorough": False}
 
@@ -211,6 +211,31 @@ def invalid_case(fam, port, variant, seed, part, wide):
                         break
                     await probe(f"set_operation_mode({mode.name}, power=50, soc={x}) right after a successful {mode.name}", "invalid_after_same_mode",
                                 lambda: inv.set_operation_mode(mode, 50, x), True)
+        if fam != "DT":
+            # ... and invalid eco arguments right after calls that may leave a note in the object: the inverter is found in (or put into)
+            # OFF_GRID / BACKUP / PEAK_SHAVING, the mode is read back, the eco groups were polled
+            for prior in ("found_off_grid", "set_off_grid", "set_backup", "read_groups", "set_general"):
+                for mode, x, soc in ((OM.ECO_CHARGE, 101, 100), (OM.ECO_DISCHARGE, -1, 50), (OM.ECO_CHARGE, 50, 101)):
+                    try:
+                        if prior == "found_off_grid":
+                            if fam == "ET":
+                                sim.regs[47000] = 1
+                            else:
+                                sim.settings[66:68] = (1).to_bytes(2, "big")
+                            await inv.get_operation_mode()
+                        elif prior == "set_off_grid":
+                            await inv.set_operation_mode(OM.OFF_GRID)
+                        elif prior == "set_backup":
+                            await inv.set_operation_mode(OM.BACKUP)
+                        elif prior == "set_general":
+                            await inv.set_operation_mode(OM.GENERAL)
+                        else:
+                            await inv.read_setting("eco_mode_1")
+                            await inv.read_setting("eco_mode_2")
+                    except (ValueError, g.InverterError):
+                        pass
+                    await probe(f"set_operation_mode({mode.name}, power={x}, soc={soc}) after {prior}", "invalid_after_state_changing_calls",
+                                lambda: inv.set_operation_mode(mode, x, soc), True)
         for _ in range(40 if wide else 12):
             sid = rnd.choice(("", "x", "nosuch", "eco_mode_9", "grid_export_limit ", "GRID_EXPORT_LIMIT", "work-mode", "mod", "time2",
                               "80", "47000", "dod_80", "bus_2", "sub-47510", "m47000", "_1", "-5", "mod-47000", "dbus-45356", "s_45356",
